@@ -10,7 +10,7 @@ def run(rep):
     control.clause_deductive(rep)
     # distinct source variables stay distinct Python variables, every `_` gets its own (visitVARIABLE contract)
     from . import lexical
-    lexical.visitor_deductive(rep, targets=('yp_prolog_visitor.YPPrologVisitor.visitVARIABLE',))
+    lexical.visitor_deductive(rep, targets=('yp_prolog_visitor.YPPrologVisitor.visitVARIABLE', 'yp_prolog_visitor.YPPrologVisitor.unquoteString'))
     # the run-time half of the pipeline: C01 rests on unification (C02), dereferencing (C15), finalisation (C03) and call
     # resolution (C08); their contracts on the functions every compiled clause goes through are part of this check
     from .common import UNIFY_FAMILY
